@@ -447,17 +447,23 @@ def scope(model, rep):
 
 def glob(model, rep):
     mi = model.func('python_minifier.minify')
-    F = Facts(mi.node)
-    defs = local_defs(mi.node)
-    c = [x for x in calls(mi.node) if isinstance(x.func, ast.Name) and x.func.id == 'rename']
-    if len(c) != 1:
-        raise AnalysisError('expected one rename(...) call in minify')
-    c = c[0]
-    pg = kwarg(c, 'prefix_globals', 1)
-    ok = isinstance(pg, ast.UnaryOp) and isinstance(pg.op, ast.Not) and src(pg.operand) == 'rename_globals' and \
-        all(d == '<param>' or (isinstance(d, ast.Constant) and d.value is False) for d in defs.get('rename_globals', []))
-    rep.check(ok, 'C04.GLOB', mi.loc(c), 'rename(prefix_globals=%s)' % src(pg), 'prefix on exactly when global renaming is off',
-              'new module-level names are not forced to start with an underscore when rename_globals is off (prefix_globals=%s)' % src(pg), key='C04.GLOB|prefix-arg')
+    # minify() evaluated with recorders (pmstatic.apirun): what does rename() receive as prefix_globals?
+    from .. import apirun
+    for rg in (False, True):
+        for tainted in (False, True):
+            r = apirun.run(model, kwargs={'rename_globals': rg}, tainted=tainted)
+            ev = r.event('rename')
+            if r.outcome[0] != 'return' or ev is None:
+                raise AnalysisError('UNDECIDED: minify(rename_globals=%r) -> %s, rename() %s' % (rg, r.outcome, 'not called' if ev is None else 'called'))
+            (_k, _n, a, kw) = ev
+            t = model.func('python_minifier.rename.renamer.rename')
+            idx = t.positional.index('prefix_globals') if 'prefix_globals' in t.positional else 1
+            got = kw.get('prefix_globals', a[idx] if idx < len(a) else '<not passed>')
+            effective = rg and not tainted
+            rep.check(got is (not effective), 'C04.GLOB', mi.loc(), 'minify(rename_globals=%r) on a %s module -> rename(prefix_globals=%r)' % (rg, 'tainted' if tainted else 'clean', got),
+                      'new module-level names get the underscore exactly when global renaming is not in effect',
+                      'names added at module level are not forced to start with an underscore although global renaming is not in effect (prefix_globals=%r)' % (got,) if not effective else
+                      'the underscore prefix is forced although global renaming is requested (prefix_globals=%r)' % (got,), key='C04.GLOB|prefix-arg|%s|%s' % (rg, tainted))
     # the assignment loop, abstractly evaluated on a module-level and a function-level binding (no shape of the loop is assumed)
     from . import assign_enum
     na = model.func('python_minifier.rename.renamer.NameAssigner.__call__')
